@@ -165,6 +165,11 @@ class VPLSBase(NLRI):
             return 'vpls nlri size inconsistency'
         return ''
 
+    def __len__(self) -> int:
+        # every other NLRI has a length: the DEBUG log line of a received UPDATE asks for it, and a valid VPLS
+        # route raised TypeError there, which reset the session
+        return len(self._packed)
+
     def pack_nlri(self, negotiated: Negotiated) -> Buffer:
         # RFC 7911 ADD-PATH is possible for VPLS but not yet implemented
         # TODO: implement addpath support when negotiated.addpath.send(AFI.l2vpn, SAFI.vpls)
